@@ -66,6 +66,7 @@ Theorem unknown_retained : forall E k d data m md,
 Proof.
   intros E k d data m md H Hmd. cbn [unpack] in H. rewrite Hmd in H. fold (st_init d md data) in H.
   destruct (scan_loop (S (length data)) md (st_init d md data)) as [st|e] eqn:Es; cbn [bind] in H; [|discriminate H].
+  destruct (max_members <? zlen (st_members st)); [discriminate H|].
   destruct (alloc_slots (md_fields md) (st_bitmap st) (st_slots st)) as [slots|e]; cbn [bind] in H; [|discriminate H].
   exists st. split; [reflexivity|].
   destruct (parse_members_unk E (unpack E k) md _ _ _ H) as [U _]. exact U.
